@@ -2,6 +2,7 @@
 R09.1 language equality vs Appendix B (ASCII folding); R09.2 haystack; R09.3 rejection sites;
 R09.4 no discarded ParseIntError; R09.5 label table total on the regex alternatives;
 R09.6 every Ok passes normalize, normalize's table; R09.7 normal-form separator table; R09.8 check parity."""
+import re
 import core, mir, rx, spec, parsers
 
 ANCHOR = "<impl std::str::FromStr for crate::version::pep440::core::PEP440>::from_str"
@@ -146,11 +147,21 @@ def normalize_rules(F, rep, f):
             for place, val, raw in sp.writes:
                 fields = [e[2] for e in raw[1:] if not isinstance(e, str) and e[0] == "f"]
                 if raw[0] == 1 and len(fields) == 1 and fields[0].endswith("_number"):
+                    if not sp.feasible(): continue
                     conds = set()
-                    for d, (rel, vals), b in sp.conds:
-                        if d[0] == "call" and isinstance(d[1], str) and ("is_some" in d[1] or "is_none" in d[1]):
-                            truth = not (rel == "eq" and 0 in vals) and not (rel == "ne" and 0 not in vals)
-                            conds.add((d[1].rsplit("::", 1)[-1], mir.show(d[2][0]), truth))
+                    for d, truth, b in sp.facts():
+                        # presence facts, whichever way they are tested: x.is_some() / x.is_none() / match on the Option (also inside a tuple)
+                        if isinstance(truth, bool) and d[0] == "call" and isinstance(d[1], str) and (d[1].endswith("::is_some") or d[1].endswith("::is_none")):
+                            present = truth if d[1].endswith("::is_some") else not truth
+                            conds.add((mir.show(d[2][0]).replace("&", ""), present))
+                        elif not isinstance(truth, bool) and d[0] == "discr":
+                            rel, vals = truth
+                            txt = mir.show(d[1])
+                            m_ = re.search(r"p1\.[a-z_]+", txt)
+                            st_ = g.blocks[b]["s"][-1] if g.blocks[b]["s"] else None
+                            if m_ and st_ and st_[0] == "=" and st_[2][0] == "discr" and "Option<" in str(st_[2][2]):
+                                present = (rel == "eq" and tuple(vals) == (1,)) or (rel == "ne" and 0 in vals and 1 not in vals)
+                                conds.add((m_.group(0), present))
                     rows.setdefault(fields[0], set()).add((mir.show(val), frozenset(conds)))
         for bi, t in g.calls():
             if mir.call_matches(t, ("to_lowercase", "to_ascii_lowercase")): lower = True
@@ -158,7 +169,7 @@ def normalize_rules(F, rep, f):
     for x in ("pre", "post", "dev"):
         key = x + "_number"
         got = rows.get(key)
-        want_cond = {("is_some", "p1.%s_label" % x, True), ("is_none", "p1.%s_number" % x, True)}
+        want_cond = {("p1.%s_label" % x, True), ("p1.%s_number" % x, False)}
         if not got:
             rep.bad(rule, "implicit-number-missing:" + x, "normalize does not fill the implicit %s number" % x, nf.where())
             continue
